@@ -20,6 +20,7 @@ const (
 	KTuple  // Fs = components
 	KOpq    // Int-sorted opaque token (maps, funcs, chans, unsafe pointers)
 	KNilLit // untyped nil in a spec expression
+	KReal   // mathematical real (spec only)
 )
 
 type SymVal struct {
